@@ -23,6 +23,11 @@ def gen_models(ctx, n, pid=None):
         ms += interlocking_cycles(rng, max(60, n // 5), wild=True)
     if pid in ("C11", "C06"):
         ms += wild_fans(rng, max(30, n // 8))
+    if pid == "C06":
+        # wildcard lists of edges inside tuple cycles whose members are public for DIFFERENT types: they too must not
+        # depend on where the depth-first search starts
+        ms += wild_cycles(rng, max(30, n // 8))
+        ms += interlocking_cycles(rng, max(30, n // 8), wild=True)
     if pid in ("C04", "C05", "C06"):
         ms += constrained_cycles(rng, max(60, n // 5))
         ms += interlocking_cycles(rng, max(60, n // 5))
